@@ -219,9 +219,25 @@ class Atomizer(object):
             return ("item_exists", s)
         node = x
         # strip bool()/len()>0 wrappers
+        if (isinstance(node, ast.Compare) and len(node.ops) == 1 and isinstance(node.ops[0], ast.Gt)
+                and isinstance(node.comparators[0], ast.Constant) and node.comparators[0].value == 0
+                and isinstance(node.left, ast.Call) and isinstance(node.left.func, ast.Name)
+                and node.left.func.id == "len" and len(node.left.args) == 1):
+            node = node.left.args[0]
         if isinstance(node, ast.Call) and isinstance(node.func, ast.Name) and node.func.id in (
                 "bool", "len") and len(node.args) == 1:
             node = node.args[0]
+        # direct use of the accessors the properties are built from
+        if isinstance(node, ast.Call) and isinstance(node.func, ast.Attribute) and isinstance(
+                node.func.value, ast.Name) and node.func.value.id == self.ws:
+            m = node.func.attr
+            if m == "get_staged_tasks" and not node.args and not node.keywords:
+                return ("staged_ready",)
+            if m == "get_tasks_by_status" and len(node.args) == 1 and not node.keywords:
+                try:
+                    return ("task_exists", frozenset(self.prog.fold(node.args[0], self.f.module)))
+                except NotFoldable:
+                    pass
         if isinstance(node, ast.Attribute) and isinstance(node.value, ast.Name) \
                 and node.value.id == self.ws:
             return self._ws_property(node.attr)
